@@ -6,6 +6,8 @@ From BU Require Import Lib.Bytes Lib.BytesFacts Lib.PySem Gen.Tables Gen.Src Mod
 Import ListNotations.
 Open Scope list_scope.
 Open Scope Z_scope.
+(* a rewritten source that translates but sends a tactic into a long search is reported as a broken proof in bounded time *)
+Set Default Timeout 900.
 
 Lemma src_segwit_digest_eq : forall sha256 (i : nat) sc am ht v ins outs l sw w,
   src_segwit_digest sha256 (Z.of_nat i) sc am ht v ins outs l =
